@@ -307,16 +307,157 @@ def restOnlyLast : List Slot → Bool
   | .bytes _ _ none :: r => r.isEmpty && restOnlyLast r
   | _ :: r => restOnlyLast r
 
+def Slot.field : Slot → String
+  | .int _ _ _ f | .u8 _ f | .bytes _ f _ | .arr _ f | .sub _ f _ _ => f
+
+/-- wire size of the nested types whose encoding has the same length for every value (what the
+    literal guards and fixed windows in front of a nested read are compared with) -/
+def fixedSize (typ : String) : Option Nat :=
+  if typ == "SMB_DATE" || typ == "SMB_FILE_ATTRIBUTES" || typ == "SMB_NMPIPE_STATUS" then some 2
+  else if typ == "SMB_TIME" || typ == "FILETIME" then some 8
+  else if typ == "LOCKING_ANDX_RANGE64" then some 20
+  else none
+
+/-- the field a marshal statement of the straight-line fragment assigns in the command itself -/
+def MStmt.modifies : MStmt → Option String
+  | .sub _ f _ | .setFmt f _ | .assignLen f _ _ => some f
+  | _ => none
+
+/-- the bytes on the wire are those of the field values Marshal leaves behind: once a field has been
+    emitted no later statement (`SetBufferFormat`, `c.F = len(…)`, a nested `Marshal`) changes it -/
+def stableM : List MStmt → Bool
+  | [] => true
+  | st :: r =>
+    (match emittedField st with
+      | some (_, f) => r.all (fun s => s.modifies != some f)
+      | none => true) && stableM r
+
+/-- every field an expression mentions has been assigned by an earlier read (and the expression does
+    not use the local `padLen`) -/
+def Expr.closed (seen : List String) : Expr → Bool
+  | .lit _ => true
+  | .fint f => seen.contains f
+  | .flen f => seen.contains f
+  | .fsub f _ => seen.contains f
+  | .pad => false
+  | .add a b => a.closed seen && b.closed seen
+  | .mul _ e => e.closed seen
+
+/-- where `offset` stands: `cur = some b` — it counts the bytes of block `b` read since the last
+    `offset = 0`; `cur = none` — it is 0.  `used`: the blocks some read has already consumed from. -/
+structure UPos where
+  cur : Option Blk := none
+  used : List Blk := []
+  deriving Repr, Inhabited
+
+def UPos.canRead (p : UPos) (b : Blk) : Bool := p.cur == some b || (p.cur == none && !p.used.contains b)
+def UPos.read (p : UPos) (b : Blk) : UPos := { cur := some b, used := b :: p.used }
+def UPos.reset (p : UPos) : UPos := { p with cur := none }
+
+/-- a guard asks for no more than the read that follows it consumes (so it cannot fail on the
+    bytes Marshal produced) -/
+def guardFits (b : Blk) (e : Expr) : List UStmt → Bool
+  | .readInt b' w _ _ :: _ => b == b' && exprLe e (.lit w)
+  | .readQuad b' w _ _ :: _ => b == b' && exprLe e (.lit w)
+  | .readU8 b' _ :: _ => b == b' && exprLe e (.lit 1)
+  | .readBytes b' _ n :: _ => b == b' && exprLe e n
+  | .readArr b' _ n :: _ => b == b' && exprLe e (.lit n)
+  | .readSub b' _ t _ _ _ _ :: _ =>
+    b == b' && (match fixedSize t with | some k => exprLe e (.lit k) | none => false)
+  | _ => false
+
+/-- offset discipline of an unmarshal program of the straight-line fragment (`layoutU` accepts it):
+    each block is read in one run starting at `offset = 0`; length expressions only mention fields
+    already read; guards fit the read they protect; a fixed window has the size of the nested type;
+    an early `return 0, nil` on empty blocks tests every block that has slots (`hp`/`hd`: the
+    parameter / data block has slots) -/
+def okU (hp hd : Bool) : UPos → List String → List UStmt → Bool
+  | _, _, [] => true
+  | pos, seen, .retIfEmpty p d :: r => (p || !hp) && (d || !hd) && okU hp hd pos seen r
+  | pos, seen, .resetOffset :: r => okU hp hd pos.reset seen r
+  | pos, seen, .guard b e :: r => guardFits b e r && okU hp hd pos seen r
+  | pos, seen, .readInt b _ _ f :: .advance _ :: r => pos.canRead b && okU hp hd (pos.read b) (f :: seen) r
+  | pos, seen, .readQuad b _ _ f :: .advance _ :: r => pos.canRead b && okU hp hd (pos.read b) (f :: seen) r
+  | pos, seen, .readU8 b f :: .advance _ :: r => pos.canRead b && okU hp hd (pos.read b) (f :: seen) r
+  | pos, seen, .readBytes b f n :: .advance _ :: r =>
+    pos.canRead b && n.closed seen && okU hp hd (pos.read b) (f :: seen) r
+  | pos, seen, .readRest b f :: .advance _ :: r => pos.canRead b && okU hp hd (pos.read b) (f :: seen) r
+  | pos, seen, .readArr b f _ :: .advance _ :: r => pos.canRead b && okU hp hd (pos.read b) (f :: seen) r
+  | pos, seen, .readSub b f t win _ _ _ :: .advanceRead :: r =>
+    pos.canRead b && (match win with | some n => fixedSize t == some n | none => true) &&
+      okU hp hd (pos.read b) (f :: seen) r
+  | _, _, _ :: _ => false
+
+/-- the slot-for-slot comparison of the two layouts (the part of `Mirror` about what is on the wire) -/
+def mirrorSlots (isAndX : Bool) (m u : List Slot) : Bool :=
+  let mP := m.filter (·.blk == .P); let mD := m.filter (·.blk == .D)
+  let uP := u.filter (·.blk == .P); let uD := u.filter (·.blk == .D)
+  agreeAll mP uP && agreeAll mD uD && restOnlyLast uP && restOnlyLast uD &&
+  (!isAndX || mP.isEmpty)     -- no Unmarshal consumes the two AndX words
+
 /-- C04 static predicate: both programs are straight-line, describe the same slots per block in the
-    same order, and the unmarshal program accounts for the AndX words the marshal program emits -/
+    same order, and the unmarshal program accounts for the AndX words the marshal program emits
+    (`mirrorSlots`); moreover — the side conditions without which the round trip is not a theorem —
+    Marshal does not change a field after emitting it (`stableM`), Unmarshal keeps the offset
+    discipline, reads lengths before the buffers they describe, guards no more than it reads
+    (`okU`), and every declared field is on the wire. -/
 def Mirror (c : Cmd) : Bool :=
   match layoutM c.marshal, layoutU c.unmarshal with
   | some m, some u =>
-    let mP := m.filter (·.blk == .P); let mD := m.filter (·.blk == .D)
-    let uP := u.filter (·.blk == .P); let uD := u.filter (·.blk == .D)
-    agreeAll mP uP && agreeAll mD uD && restOnlyLast uP && restOnlyLast uD &&
-    (!c.isAndX || mP.isEmpty)     -- no Unmarshal consumes the two AndX words
+    mirrorSlots c.isAndX m u &&
+    stableM c.marshal &&
+    okU (!(u.filter (·.blk == .P)).isEmpty) (!(u.filter (·.blk == .D)).isEmpty) {} [] c.unmarshal &&
+    (c.fields.map (·.1)).all (fun f => (u.map Slot.field).contains f)
   | _, _ => false
+
+/-- bytes a slot contributes, read off the field values (for `sub`: what the nested encoder emits);
+    `[]` when the field is absent or holds a value of another kind -/
+def slotBytes (C : Codecs) (env : Env) : Slot → Bytes
+  | .int _ w e f => match env.get f with | some (.n x) => intBytes w e x | _ => []
+  | .u8 _ f => match env.get f with | some (.n x) => [UInt8.ofNat x] | _ => []
+  | .bytes _ f _ => match env.get f with | some (.b bs) => bs | _ => []
+  | .arr _ f => match env.get f with | some (.b bs) => bs | _ => []
+  | .sub _ f typ _ =>
+    match env.get f with
+    | some (.t v) => (match C.enc typ v with | .ok (bs, _) => bs | _ => [])
+    | _ => []
+
+/-- bytes of a sequence of slots: the encoding a layout prescribes for the field values -/
+def layoutBytes (C : Codecs) (env : Env) (l : List Slot) : Bytes := l.flatMap (slotBytes C env)
+
+/-- nested wire types a command marshals -/
+def Cmd.subTypes (c : Cmd) : List String :=
+  c.marshal.filterMap (fun s => match s with | .sub _ _ t => some t | _ => none)
+
+/-! ### slot locality: where a fixed-width field sits in the encoded command -/
+
+/-- does a marshal statement of the straight-line fragment read or write field `f`
+    (statements outside the fragment: conservatively yes) -/
+def MStmt.mentions (f : String) : MStmt → Bool
+  | .int _ _ _ g | .quad _ _ _ g | .u8 _ g | .bytes _ g | .arr _ g | .sub _ g _ | .setFmt g _ => g == f
+  | .assignLen g h _ => g == f || h == f
+  | _ => true
+
+/-- offset and width of the first fixed-width slot of field `f` in a block's slot list, provided
+    every slot in front of it has a fixed width (`off`: bytes in front of the list) -/
+def slotAt (f : String) : List Slot → Nat → Option (Nat × Nat)
+  | [], _ => none
+  | .int _ w _ g :: r, off => if g == f then some (off, w) else slotAt f r (off + w)
+  | .u8 _ g :: r, off => if g == f then some (off, 1) else slotAt f r (off + 1)
+  | _ :: _, _ => none
+
+/-- byte range `[lo, hi)` of a fixed-width parameter field's slot inside the encoded command: defined
+    when the marshal program is straight-line, exactly one statement touches the field, and only
+    fixed-width slots precede it in the parameter block (then the offset does not depend on values) -/
+def slotRange (c : Cmd) (f : String) : Option (Nat × Nat) :=
+  if (c.marshal.filter (·.mentions f)).length != 1 then none else
+  match layoutM c.marshal with
+  | none => none
+  | some m =>
+    match slotAt f (m.filter (·.blk == .P)) 0 with
+    | some (off, w) =>
+      some (1 + (andxBytes c.isAndX).length + off, 1 + (andxBytes c.isAndX).length + off + w)
+    | none => none
 
 /-- value of an integer expression over a field assignment (before any decoding) -/
 def evalEnv (env : Env) : Expr → Option Nat
@@ -361,6 +502,49 @@ def tupOk (C : Codecs) (typ : String) (v : Tup) : Bool :=
   match C.enc typ v with
   | .ok (bs, v') => (match C.dec typ bs with | .ok (d, k) => k == bs.length && d == v' | _ => false)
   | _ => false
+
+/-- laws the nested codecs must satisfy for the types `T` (for the standard codecs they follow from the
+    C06 models): `Marshal` is idempotent on the value it leaves behind; a value of the domain decodes
+    from its encoding followed by anything, consuming exactly the encoding; the types with a
+    `fixedSize` always encode to that many bytes. -/
+structure LawfulCodecs (C : Codecs) (T : String → Prop) : Prop where
+  idem : ∀ typ v bs v', T typ → C.enc typ v = .ok (bs, v') → C.enc typ v' = .ok (bs, v')
+  rt : ∀ typ v bs v', T typ → C.enc typ v = .ok (bs, v') → tupOk C typ v = true →
+        ∀ suffix, C.dec typ (bs ++ suffix) = .ok (v', bs.length)
+  size : ∀ typ n v bs v', T typ → fixedSize typ = some n → C.enc typ v = .ok (bs, v') → bs.length = n
+
+/-- the extra law the re-encoding corollary needs, for the types `F` whose buffer format `Marshal`
+    respects: after `SetBufferFormat k` (a `UCHAR`), the value `Marshal` leaves behind still has format `k` -/
+structure LawfulFmt (C : Codecs) (F : String → Prop) : Prop where
+  fmt : ∀ typ k v bs v', F typ → k < 256 → C.enc typ (C.setFmt k v) = .ok (bs, v') → C.setFmt k v' = v'
+
+/-- shape of a marshal program (of the straight-line fragment) whose second run, on the field values
+    the first run left behind, changes nothing: every `SetBufferFormat` (with a one-byte format) is
+    immediately followed by the `Marshal` of the same nested field; no `c.F = len(c.G)` -/
+def reencodableM : List MStmt → Bool
+  | [] => true
+  | .setFmt f k :: r =>
+    (match r with
+      | .sub _ g _ :: _ => f == g && decide (k < 256)
+      | _ => false) && reencodableM r
+  | .assignLen _ _ _ :: _ => false
+  | _ :: r => reencodableM r
+
+/-- nested types marshalled right after a `SetBufferFormat` -/
+def fmtTypesM : List MStmt → List String
+  | [] => []
+  | .setFmt _ _ :: r => (match r with | .sub _ _ t :: _ => [t] | _ => []) ++ fmtTypesM r
+  | _ :: r => fmtTypesM r
+
+def Cmd.fmtTypes (c : Cmd) : List String := fmtTypesM c.marshal
+
+/-- static side condition of the re-encoding corollary: `reencodableM`, and the marshal program only
+    emits declared fields -/
+def Reencodable (c : Cmd) : Bool :=
+  reencodableM c.marshal &&
+  (match layoutM c.marshal with
+    | some m => (m.map Slot.field).all (fun f => (c.fields.map (·.1)).contains f)
+    | none => false)
 
 /-- integers fit the width the marshal program gives them -/
 def intsFit (env : Env) : List MStmt → Bool
